@@ -45,7 +45,7 @@ REFS = {
     'mystic.math.measures:_unpack.recurse':
         'def recurse(next):\n    if next == ndim:\n        return\n    else:\n        temp[next] = temp[next - 1] * npts[next]\n        currentindex = temp[next]\n        lastindex = temp[next - 1]\n        _samples.append([j[next] for j in samples][:currentindex:lastindex])\n        recurse(next + 1)\n',
     'mystic.math.measures:_flat':
-        'def _flat(params):\n    from mystic.tools import flatten\n    return list(flatten(params))\n',
+        'def _flat(params):\n    from mystic.tools import flatten, list_or_tuple_or_ndarray\n    return list(flatten(params, to_expand=list_or_tuple_or_ndarray))\n',
     'mystic.math.measures:_nested':
         'def _nested(params, npts):\n    coords = []\n    ind = 0\n    for i in range(len(npts)):\n        coords.append(params[ind:ind + npts[i]])\n        ind += npts[i]\n    return coords\n',
     'mystic.math.discrete:product_measure.flatten':
@@ -55,7 +55,7 @@ REFS = {
     'mystic.math.discrete:product_measure.update':
         'def update(self, params):\n    pts = self.pts\n    _len = 2 * sum(pts)\n    if len(params) > _len:\n        params, values = (params[:_len], params[_len:])\n    pm = unflatten(params, pts)\n    zo = pm.count([])\n    self[:] = pm[:len(self) - zo] + self[len(pm) - zo:]\n    return self\n',
     'mystic.math.discrete:scenario.update':
-        'def update(self, params):\n    pts = self.pts\n    _len = 2 * sum(pts)\n    if len(params) > _len:\n        params, values = (params[:_len], params[_len:])\n        self.values = values[:len(self.values)] + self.values[len(values):]\n    pm = unflatten(params, pts)\n    zo = pm.count([])\n    self[:] = pm[:len(self) - zo] + self[len(pm) - zo:]\n    return self\n',
+        'def update(self, params):\n    pts = self.pts\n    _len = 2 * sum(pts)\n    if len(params) > _len:\n        params, values = (params[:_len], params[_len:])\n        self.values = list(values) + self.values[len(values):]\n    pm = unflatten(params, pts)\n    zo = pm.count([])\n    self[:] = pm[:len(self) - zo] + self[len(pm) - zo:]\n    return self\n',
     'mystic.math.discrete:product_measure.load':
         'def load(self, params, pts):\n    _len = 2 * sum(pts)\n    if len(params) > _len:\n        params, values = (params[:_len], params[_len:])\n    self.extend(unflatten(params, pts))\n    return self\n',
     'mystic.math.discrete:scenario.load':
